@@ -160,6 +160,30 @@ def _counters(ctx):
                'Server.%s calls %s([app.affinity.name]) (exactly-once is '
                'C01.2)' % (mname, cname),
                construct='Server.%s -> %s' % (mname, cname))
+    # an instance is un-placed only by the routine that also withdraws its
+    # affinity (Server.remove); the one exception is a server that vanished
+    # from the cell, whose counters vanished with it
+    mod_ = index.module(K.SCHED)
+    for cls_ in mod_.classes.values():
+        for func in cls_.live_methods():
+            for sub in K.walk_no_nested(func.node):
+                if isinstance(sub, ast.Assign) and \
+                        isinstance(sub.value, ast.Constant) and \
+                        sub.value.value is None and any(
+                            isinstance(t, ast.Attribute) and
+                            t.attr == 'server' and
+                            not K.name_is(t.value, 'self')
+                            for t in sub.targets):
+                    ok = func.qualname in ('Server.remove',
+                                           'Cell._fix_invalid_placements')
+                    ctx.ob('C04.1', func, sub, ok,
+                           'instances are un-placed only by Server.remove, '
+                           'which decrements the affinity counters with '
+                           'them' if ok else
+                           '%s un-places instances itself: the affinity '
+                           'counters of the server and its ancestors are '
+                           'not withdrawn per instance' % func.qualname,
+                           construct='un-placement in %s' % func.qualname)
     # add_node adds the child's whole counter
     add = index.find_method(node_cls, 'add_node')
     ctx.require(add is not None, 'Node.add_node')
@@ -304,6 +328,32 @@ def _every_level(ctx, node_cls, server, base):
                      'are not (no ancestor walk in the leaf placement or '
                      'before this call)')
         return
+    # every routine of the leaf that records an instance on the server does
+    # so behind the admission predicate (whose Server override walks the
+    # limits of every level) - also the verbatim restore
+    stores = 0
+    for func in server.live_methods():
+        sgraph = None
+        for sub in K.walk_no_nested(func.node):
+            if not (isinstance(sub, ast.Assign) and any(
+                    isinstance(t, ast.Subscript) and
+                    N.txt(t.value) == 'self.apps' for t in sub.targets)):
+                continue
+            sgraph = sgraph or ctx.cfg(func)
+            site = [n for n in sgraph.nodes if n.ast is sub]
+            if not site:
+                continue
+            stores += 1
+            ok = K.guarded_by(sgraph, site[0], lambda e: any(
+                a.key[0] == 'truth' and a.key[2] and (
+                    a.key[1].startswith('self.check_app_constraints(') or
+                    a.key[1].startswith('self.%s(' % base.name))
+                for a in nz.facts_of_edge(e)))
+            ctx.ob('C04.3', func, site[0], ok,
+                   'an instance is recorded on the server only after the '
+                   'admission predicate (limits of every level) accepted it',
+                   construct='store into self.apps in %s' % func.name)
+    ctx.require(stores >= 1, 'store into Server.apps')
     graph = ctx.cfg(leaf)
     app = leaf.params()[1]
     heads = [n for n in graph.nodes if n.kind == 'loop_head']
